@@ -797,7 +797,11 @@ func schemaHasDefaultsInProperties(s *Schema) bool {
 		return true
 	}
 	if s.Properties != nil {
-		for _, ss := range s.Properties {
+		for prop, ss := range s.Properties {
+			// ApplyDefaults ignores defaults on required properties.
+			if slices.Contains(s.Required, prop) {
+				continue
+			}
 			if schemaHasDefaultsInProperties(ss) {
 				return true
 			}
